@@ -55,6 +55,9 @@ def _case(draw, tier):
         "centred": centred,
         "data": draw(datagen.data_spec(n, dtypes=["float64", "float32", "int64", "int32", "uint8", "uint16", "bool"], vmax=8, stores=datagen.STORES)),
         "constant": draw(sampled_from([False, False, False, True])),
+        # floating-point fields may hold NaN / inf (missing data): on the face next to a boundary edge, and on a drawn face
+        "nonfinite": draw(sampled_from([None, None, None, None, "nan", "inf"])),
+        "nonfinite_face": draw(st.integers(0, 10_000)),
         "order": draw(st.permutations([0, 1, 2, 3])),
     }
 
@@ -204,6 +207,36 @@ def run_case(case, ctx):
         return fails
 
     # face-centred
+    if case.get("nonfinite") and spec["dtype"].startswith("float") and not case["constant"] and not fails:
+        # missing data: a boundary edge has no second face, so its difference and gradient are zero whatever its one face
+        # holds; an edge between two finite faces is what it always is; edges touching a non-finite face give no verdict
+        bval = np.nan if case["nonfinite"] == "nan" else np.inf
+        arr_nf = a64.copy()
+        bfaces = sorted({int(ef[e, 0]) for e in range(n_edge) if not interior[e]})
+        hit = set(bfaces[:1]) | {case["nonfinite_face"] % arr_nf.shape[-1]}
+        for f_ in hit:
+            arr_nf[..., f_] = bval
+        da_nf = ux.UxDataArray(arr_nf.astype(spec["dtype"]), dims=da.dims, uxgrid=g, name="v")
+        ctx.label("data:non-finite-next-to-a-boundary-edge" if bfaces else "data:non-finite")
+        finite_edge = np.array([bool(interior[e]) and int(ef[e, 0]) not in hit and int(ef[e, 1]) not in hit for e in range(n_edge)])
+        with np.errstate(all="ignore"):
+            for what, res_nf in (("difference", da_nf.difference(destination="edge")), ("gradient", da_nf.gradient())):
+                got_nf = np.asarray(res_nf.values, float)
+                ctx.ev("difference_faces" if what == "difference" else "gradient_value")
+                if got_nf.shape != lead + (n_edge,):
+                    bad("dims_grid", "wrong", f"{what} of a field with non-finite values: shape {got_nf.shape}", what)
+                    return fails
+                bnd = ~interior
+                if bnd.any() and not np.all(got_nf[..., bnd] == 0):
+                    e = int(np.argwhere(bnd & ~np.all(got_nf.reshape(-1, n_edge) == 0, axis=0))[0][0])
+                    bad("difference_faces" if what == "difference" else "gradient_value", "boundary-edge-not-zero", f"{what}: boundary edge {e} (its one face {int(ef[e, 0])} holds {case['nonfinite']}) reports {got_nf[..., e].ravel()[:3]}, expected 0", site + ":non-finite-data")
+                    return fails
+                if finite_edge.any() and what == "difference":  # (gradient values of finite fields are judged below)
+                    ex_ = np.abs(arr_nf[..., ef[finite_edge, 0]] - arr_nf[..., ef[finite_edge, 1]])
+                    tol_ = rtol
+                    if not np.allclose(got_nf[..., finite_edge], ex_, rtol=tol_, atol=tol_):
+                        bad("difference_faces" if what == "difference" else "gradient_value", "wrong", f"{what} between finite faces changed by non-finite values elsewhere in the field", site + ":non-finite-data")
+                        return fails
     exp_diff = np.zeros(lead + (n_edge,))
     for e in range(n_edge):
         if interior[e]:
